@@ -96,8 +96,9 @@ def build_template(spec, chart):
   return b
 
 
-def build_factory(spec, factory):
-  """Factory.create(state=...).catch(signal=..., handler=...).to_method() + nest()."""
+def build_factory(spec, factory, by_name=False):
+  """Factory.create(state=...).catch(signal=..., handler=...).to_method() + nest(); with by_name
+  the states are handed to nest() by the names they were created under."""
   b = Build(spec)
   cbs = b.callbacks()
   for i in range(spec["n"]):
@@ -108,12 +109,16 @@ def build_factory(spec, factory):
     b.fns[i] = bp.to_method()
   for i in range(spec["n"]):
     p = spec["parent"][i]
-    factory.nest(b.fns[i], parent=None if p == -1 else b.fns[p])
+    if by_name:
+      factory.nest(state_name(i), parent=None if p == -1 else state_name(p))
+    else:
+      factory.nest(b.fns[i], parent=None if p == -1 else b.fns[p])
   return b
 
 
-def build_from_code(spec, source_chart, source_build):
-  """exec the to_code text of every state of `source_chart`."""
+def build_from_code(spec, source_chart, source_build, by_name=False):
+  """exec the to_code text of every state of `source_chart` (asked for by state function, or - a
+  Factory accepts that - by the name the state was created under)."""
   from miros.event import signals, return_status
   from miros.hsm import spy_on as deco
   b = Build(spec)
@@ -122,7 +127,7 @@ def build_from_code(spec, source_chart, source_build):
     ns[cb.__name__] = cb
   texts = []
   for i in range(spec["n"]):
-    text = source_chart.to_code(source_build.fns[i])
+    text = source_chart.to_code(state_name(i) if by_name else source_build.fns[i])
     texts.append(text)
     exec(compile(text, "<to_code %s>" % state_name(i), "exec"), ns)
   for i in range(spec["n"]):
@@ -166,8 +171,9 @@ class C17(Prop):
       return case
     flav = st.sampled_from([["function"], ["function"], ["function", "partial", "object"], ["partial"], ["object"]])
     return st.tuples(chartgen.chart_case(max_events=8, max_states=8, max_sigs=3, spy=True), flav,
-                     st.one_of(st.none(), st.integers(0, 200))).map(
-      lambda t: some_callback(dict(t[0], spec=dict(t[0]["spec"], flavours=t[1]), late=t[2])))
+                     st.one_of(st.none(), st.integers(0, 200)), st.integers(0, 2)).map(
+      lambda t: some_callback(dict(t[0], spec=dict(t[0]["spec"], flavours=t[1]), late=t[2],
+                                   by_name=(t[3] == 0))))
 
   def transcript_direct(self, case, chart, build):
     from miros.event import Event, signals
@@ -246,7 +252,7 @@ class C17(Prop):
     guarded("template (second chart of the same recipe)", lambda: self.transcript_direct(case, t2, b2))
 
     def from_code(src_chart, src_build, label):
-      bc = build_from_code(spec, src_chart, src_build)
+      bc = build_from_code(spec, src_chart, src_build, by_name=(label == "factory" and bool(case.get("by_name"))))
       return self.transcript_direct(case, hsmcheck.make_host("queued"), bc)
     guarded("to_code(template)", lambda: from_code(t1, b1, "template"))
 
@@ -258,10 +264,10 @@ class C17(Prop):
 
     def body(s):
       f = chartgen.bounded(ao.Factory)("vfactory")
-      bf = build_factory(spec, f)
+      bf = build_factory(spec, f, by_name=bool(case.get("by_name")))
       holder["f"], holder["bf"] = f, bf
       out = []
-      f.start_at(bf.fns[case["start"]])
+      f.start_at(state_name(case["start"]) if case.get("by_name") else bf.fns[case["start"]])
       s.quiesce()
       out.append((list(bf.log), f.state_name))
       for sig in case["events"]:
